@@ -333,7 +333,7 @@ fn c02_set_views() {
     assert!(beq(c2[i], r[i]), "C02.K.set.views: 2D + height + epoch adaptor returns the same values");
 }
 
-//@h {"id":"C19.K.canary","props":["C19"],"tier":"quick","kind":"canary","timeout":120,"text":"canary: deliberately false claim (Coor2D stores a height) must FAIL"}
+//@h {"id":"C19.K.canary","props":["C19","C02","C09"],"tier":"quick","kind":"canary","timeout":120,"text":"canary: deliberately false claim (Coor2D stores a height) must FAIL"}
 #[kani::proof]
 fn c19_canary() {
     let r: [f64; 4] = kani::any();
